@@ -65,17 +65,22 @@ def run(rep, tier, seed, replay_file=None):
         "free capacity = cap() > len() (DESIGN 5.0)",
     ]
     qbin = harness.build("vh-queue")
-    if impl_models(rep, "queue", "QueueImpl", quick):
-        for cfg, inv in (("MC_asis_helper.cfg", "NoStuck"), ("MC_asis_badd.cfg", "NoStuck")):
-            r = tlc.run_tlc("queue", "QueueImpl", cfg, workers=4, timeout=600)
-            rep.self_test("QueueImpl/%s shows the pre-fix lost wake-up (NoStuck not vacuous)" % cfg, r.violated == inv, str(r.brief()))
-    stepped(rep, "queue", "QueueStep", "QueueLinTrace", qbin, "sched", quick, seed, "queue")
-    try:
-        from props import c07_deque
-    except ImportError:
-        c07_deque = None
-    if c07_deque:
-        c07_deque.run(rep, tier, seed)
+    from props import c07_deque
+    import concurrent.futures as cf
+
+    def queue_models():
+        if impl_models(rep, "queue", "QueueImpl", quick):
+            for cfg, inv in (("MC_asis_helper.cfg", "NoStuck"), ("MC_asis_badd.cfg", "NoStuck")):
+                r = tlc.run_tlc("queue", "QueueImpl", cfg, workers=4, timeout=600)
+                rep.self_test("QueueImpl/%s shows the pre-fix lost wake-up (NoStuck not vacuous)" % cfg, r.violated == inv, str(r.brief()))
+
+    # the exhaustive Impl models (TLC only) run beside the schedule replays (harness + trace validation)
+    with cf.ThreadPoolExecutor(max_workers=2) as ex:
+        futs = [ex.submit(queue_models), ex.submit(c07_deque.models, rep, tier)]
+        stepped(rep, "queue", "QueueStep", "QueueLinTrace", qbin, "sched", quick, seed, "queue")
+        c07_deque.stepped(rep, tier, seed)
+        for f in futs:
+            f.result()
     rep.cov["rule"] = ("driver schedules from QueueStep/DequeStep (edge cover + random), executed on the real container with every "
                        "operation in its own goroutine and observation at quiescence; the recorded history is validated by the "
                        "LinTrace spec with StrictQuiet (no enabled operation may be blocked at a quiescent point); non-trivial = "
